@@ -107,6 +107,13 @@ pub fn rep_packets() -> Vec<Pkt> {
                 CONNECT => {
                     p.client_id = "cid".into();
                     p.clean = true;
+                    if pv == 5 {
+                        // a second variant that announces limits: a refused CONNECT must not adopt them
+                        v.push(p.clone());
+                        p.clean = false;
+                        p.keep_alive = 77;
+                        p.props = vec![Prop::SessionExpiry(7), Prop::ReceiveMax(9), Prop::MaxPacketSize(1000), Prop::TopicAliasMax(9)];
+                    }
                 }
                 CONNACK => p.rc = Some(0),
                 PUBLISH => {
@@ -181,9 +188,15 @@ pub fn c17_cells() -> Vec<Cell> {
                         for k in 0..16 {
                             out.push(Cell { role, as_client, ver, wire_v, status, flag, k });
                         }
-                        // CONNECT with unsupported protocol levels
-                        for k in [16usize, 17] {
+                        // CONNECT with unsupported protocol levels, CONNACK with a failure code
+                        for k in [16usize, 17, 18] {
                             out.push(Cell { role, as_client, ver, wire_v, status, flag, k });
+                        }
+                        // kinds this role may never receive, with a non-canonical flag nibble
+                        for nib in 1..16usize {
+                            if !role_may_recv(role, wire_v, nib as u8) {
+                                out.push(Cell { role, as_client, ver, wire_v, status, flag, k: 32 + nib });
+                            }
                         }
                     }
                 }
@@ -294,7 +307,15 @@ fn c17_frame(c: &Cell, idw: usize) -> Vec<u8> {
     if k == 15 && v == 4 {
         return vec![0xf0, 0x00];
     }
-    let kind = if k >= 16 { CONNECT } else { k as u8 };
+    if k >= 32 {
+        // forbidden kind, flag nibble with its lowest bit flipped
+        let mut c2 = c.clone();
+        c2.k = k - 32;
+        let mut b = c17_frame(&c2, idw);
+        b[0] ^= 0x01;
+        return b;
+    }
+    let kind = if k == 18 { CONNACK } else if k >= 16 { CONNECT } else { k as u8 };
     let mut p = Pkt::new(v, kind);
     match kind {
         CONNECT => {
@@ -307,7 +328,7 @@ fn c17_frame(c: &Cell, idw: usize) -> Vec<u8> {
                 p.level = 6;
             }
         }
-        CONNACK => p.rc = Some(0),
+        CONNACK => p.rc = Some(if k == 18 { if v == 5 { 0x87 } else { 5 } } else { 0 }),
         PUBLISH => {
             p.topic = "t0".into();
             p.payload = b"m".to_vec();
@@ -335,8 +356,8 @@ fn c17_frame(c: &Cell, idw: usize) -> Vec<u8> {
 
 pub fn run_c17_cell(c: &Cell) -> CellResult {
     let mut s = reach(c);
-    let nib = if c.k >= 16 { 1 } else { c.k };
-    let desc = format!("role={:?} acting={} ver={:?} wire=v{} status={:?} flag={:?} frame={}{}", c.role, if c.as_client { "client" } else { "server" }, c.ver, c.wire_v, c.status, c.flag, wire::kind_name(nib as u8), if c.k == 16 { " level 3" } else if c.k == 17 { " level 6" } else { "" });
+    let nib = if c.k >= 32 { c.k - 32 } else if c.k == 18 { 2 } else if c.k >= 16 { 1 } else { c.k };
+    let desc = format!("role={:?} acting={} ver={:?} wire=v{} status={:?} flag={:?} frame={}{}", c.role, if c.as_client { "client" } else { "server" }, c.ver, c.wire_v, c.status, c.flag, wire::kind_name(nib as u8), if c.k == 16 { " level 3" } else if c.k == 17 { " level 6" } else if c.k == 18 { " failure code" } else if c.k >= 32 { " non-canonical flags" } else { "" });
     if s.w.failed() {
         return CellResult { desc, viol: s.w.viol.clone(), log: s.w.log.clone(), refused: false, steps: s.w.step as u64, stats: s.w.stats.clone() };
     }
@@ -445,7 +466,7 @@ pub fn check_compile_time() -> Option<Violation> {
                 _ => St::Connected,
             };
             let reps = rep_packets();
-            let k = reps.iter().position(|r| r.v == p.v && r.kind == p.kind && r.rc.is_none()).or_else(|| reps.iter().position(|r| r.v == p.v && r.kind == p.kind)).unwrap();
+            let k = reps.iter().position(|r| r.v == p.v && r.kind == p.kind && r.rc.is_none() && r.props.is_empty()).or_else(|| reps.iter().position(|r| r.v == p.v && r.kind == p.kind)).unwrap();
             let cell = Cell { role: *role, as_client, ver: if p.v == 4 { Ver::V4 } else { Ver::V5 }, wire_v: p.v, status, flag: Flag::None, k };
             let r = run_c11_cell(&cell);
             if let Some(v) = r.viol {
